@@ -28,7 +28,13 @@ def main():
         try:
             Vertex.NEIGHBOR_CACHING = bool(job["flag"])
             loader = dill if job.get("loader") == "dill" else pickle
-            world = loader.loads(job["blob"])
+            world = loader.loads(job["blob"]) if job.get("blob") is not None else None
+            if "c05prefix" in job["want"]:
+                from checks import c05
+
+                res["blob"] = c05.prefix_in_this_process(job["case"], job["ops"])
+                results.append(res)
+                continue
             if "c05suffix" in job["want"]:
                 from checks import c05
 
